@@ -119,6 +119,15 @@ class Ser:
     def __len__(self):
         return len(self.values)
 
+    def __setitem__(self, key, value):
+        if isinstance(key, (Ser, list, tuple, slice)):
+            raise Unsupported("series assignment by mask / list")
+        if key in self.index:
+            self.values[self.index.index(key)] = value
+        else:  # setting with enlargement
+            self.index.append(key)
+            self.values.append(value)
+
     def __getitem__(self, key):
         if isinstance(key, Ser):
             if key.index != self.index or not all(isinstance(v, bool) for v in key.values):
